@@ -125,8 +125,21 @@ fn fmt_snap_items(s: &Snap) -> String {
     }
 }
 
-const INT_CAP: usize = 40_000;
-const BYTE_CAP: usize = 200_000;
+const INT_CAP: usize = 120_000;
+const BYTE_CAP: usize = 600_000;
+
+thread_local! {
+    static IBUF: std::cell::RefCell<Vec<i32>> = std::cell::RefCell::new(vec![0i32; INT_CAP]);
+    static BBUF: std::cell::RefCell<Vec<u8>> = std::cell::RefCell::new(vec![0u8; BYTE_CAP]);
+}
+
+/// scratch output buffers, allocated once (the callers copy the written prefix out)
+fn with_ibuf<T>(f: impl FnOnce(&mut [i32]) -> T) -> T {
+    IBUF.with(|b| f(&mut b.borrow_mut()[..]))
+}
+fn with_bbuf<T>(f: impl FnOnce(&mut [u8]) -> T) -> T {
+    BBUF.with(|b| f(&mut b.borrow_mut()[..]))
+}
 
 enum Wr<T> {
     Ok(T),
@@ -136,8 +149,7 @@ enum Wr<T> {
 
 fn snap_write_ints(s: &Snap) -> Wr<Vec<i32>> {
     let mut keys = vec![];
-    let mut out = vec![0i32; INT_CAP];
-    match catch(|| s.write_to_ints(&mut keys, &mut out).map(|x| x.to_vec())) {
+    match with_ibuf(|out| catch(|| s.write_to_ints(&mut keys, out).map(|x| x.to_vec()))) {
         Err(_) => Wr::Panic,
         Ok(Err(_)) => Wr::Capacity,
         Ok(Ok(v)) => Wr::Ok(v),
@@ -146,8 +158,7 @@ fn snap_write_ints(s: &Snap) -> Wr<Vec<i32>> {
 
 fn raw_write_ints(s: &RawSnap) -> Wr<Vec<i32>> {
     let mut keys = vec![];
-    let mut out = vec![0i32; INT_CAP];
-    match catch(|| s.write_to_ints(&mut keys, &mut out).map(|x| x.to_vec())) {
+    match with_ibuf(|out| catch(|| s.write_to_ints(&mut keys, out).map(|x| x.to_vec()))) {
         Err(_) => Wr::Panic,
         Ok(Err(_)) => Wr::Capacity,
         Ok(Ok(v)) => Wr::Ok(v),
@@ -156,8 +167,7 @@ fn raw_write_ints(s: &RawSnap) -> Wr<Vec<i32>> {
 
 fn raw_write_bytes(s: &RawSnap) -> Wr<Vec<u8>> {
     let mut keys = vec![];
-    let mut out = vec![0u8; BYTE_CAP];
-    match catch(|| with_packer(&mut out[..], |p| s.write(&mut keys, p).map(|x| x.to_vec()))) {
+    match with_bbuf(|out| catch(|| with_packer(&mut out[..], |p| s.write(&mut keys, p).map(|x| x.to_vec())))) {
         Err(_) => Wr::Panic,
         Ok(Err(_)) => Wr::Capacity,
         Ok(Ok(v)) => Wr::Ok(v),
@@ -188,8 +198,7 @@ fn pack_ints(xs: &[i32]) -> Vec<u8> {
 
 /// canonical delta `D[deleted|updates]` reconstructed from the explicit-size integer form
 fn fmt_delta(d: &Delta) -> String {
-    let mut out = vec![0i32; INT_CAP];
-    let xs = match catch(|| d.write_to_ints(osz_none, &mut out).map(|x| x.to_vec())) {
+    let xs = match with_ibuf(|out| catch(|| d.write_to_ints(osz_none, out).map(|x| x.to_vec()))) {
         Ok(Ok(v)) => v,
         _ => return "D[?]".to_string(),
     };
@@ -206,16 +215,14 @@ fn fmt_delta(d: &Delta) -> String {
 }
 
 fn delta_write_ints(d: &Delta, osz: ObjSize) -> Option<Vec<i32>> {
-    let mut out = vec![0i32; INT_CAP];
-    match catch(|| d.write_to_ints(osz, &mut out).map(|x| x.to_vec())) {
+    match with_ibuf(|out| catch(|| d.write_to_ints(osz, out).map(|x| x.to_vec()))) {
         Ok(Ok(v)) => Some(v),
         _ => None,
     }
 }
 
 fn delta_write_bytes(d: &Delta, osz: ObjSize) -> Option<Vec<u8>> {
-    let mut out = vec![0u8; BYTE_CAP];
-    match catch(|| with_packer(&mut out[..], |p| d.write(osz, p).map(|x| x.to_vec()))) {
+    match with_bbuf(|out| catch(|| with_packer(&mut out[..], |p| d.write(osz, p).map(|x| x.to_vec())))) {
         Ok(Ok(v)) => Some(v),
         _ => None,
     }
@@ -375,17 +382,20 @@ fn sizes_ok(osz: ObjSize, b: &[It]) -> bool {
 
 struct R {
     refdeltas: BTreeMap<String, refsnap::Delta>,
+    refout: Vec<i32>,
+    refpool: Vec<refsnap::RawBuilder>,
 }
 
-fn ref_build(its: &[It]) -> (refsnap::RawSnap, Vec<i32>) {
-    let mut b = refsnap::RawBuilder::new();
+/// builds with a pooled reference builder (allocating ~130 KiB per builder for every pair makes
+/// glibc trim and regrow the heap constantly)
+fn ref_build(pool: &mut Vec<refsnap::RawBuilder>, its: &[It]) -> (refsnap::RawSnap, Vec<i32>) {
+    let mut b = pool.pop().unwrap_or_else(refsnap::RawBuilder::new);
     for (t, id, d) in its {
         b.add_item(*t, *id, d).unwrap();
     }
     let mut s = b.finish();
     let mut buf = vec![];
-    let mut out = vec![0i32; 16384];
-    let ints = s.write_to_ints(&mut buf, &mut out).map(|x| x.to_vec()).unwrap_or_default();
+    let ints = with_ibuf(|out| s.write_to_ints(&mut buf, out).map(|x| x.to_vec()).unwrap_or_default());
     (s, ints)
 }
 
@@ -394,8 +404,11 @@ impl R {
     /// then fails a slice bound; the spare room keeps the C++ write inside our allocation)
     fn ref_delta(&mut self, oszname: &str, osz: ObjSize, a: &refsnap::RawSnap, b: &refsnap::RawSnap) -> Option<Vec<i32>> {
         let d = self.refdeltas.entry(oszname.to_string()).or_insert_with(refsnap::Delta::new);
-        let mut out = vec![0i32; 40000];
-        catch(|| d.create_raw_and_write_to_ints(a, b, osz, &mut out).map(|x| x.to_vec()).unwrap_or_default()).ok()
+        if self.refout.is_empty() {
+            self.refout = vec![0i32; 40000];
+        }
+        let out = &mut self.refout;
+        catch(|| d.create_raw_and_write_to_ints(a, b, osz, &mut out[..]).map(|x| x.to_vec()).unwrap_or_default()).ok()
     }
 
     fn op_pair(&mut self, oszname: &str, osz: ObjSize, ai: &[It], bi: &[It], a: &RawSnap, b: &RawSnap, o: &mut Oracle) -> String {
@@ -474,9 +487,12 @@ impl R {
         let part2 = if in_ref {
             let ua = unsigned_sorted(ai);
             let ub = unsigned_sorted(bi);
-            let (ra, _) = ref_build(&ua);
-            let (rbs, rs) = ref_build(&ub);
-            let rd = match self.ref_delta(oszname, osz, &ra, &rbs) {
+            let (ra, _) = ref_build(&mut self.refpool, &ua);
+            let (rbs, rs) = ref_build(&mut self.refpool, &ub);
+            let rd = self.ref_delta(oszname, osz, &ra, &rbs);
+            self.refpool.push(ra.recycle());
+            self.refpool.push(rbs.recycle());
+            let rd = match rd {
                 Some(x) => x,
                 None => return format!("{} si:{} sb:{} ref:toolong", part1, short(fmt_wr_ints(&si)), sb),
             };
@@ -598,9 +614,8 @@ fn follow_ups(s: &Snap, o: &mut Oracle) -> String {
             }
             let items = fmt_snap_items(s);
             let same = |r: &Rs<Snap>| match r {
-                Rs::Ok(s2, ws) => {
-                    ws.is_empty() && matches!(snap_write_ints(s2), Wr::Ok(ref ys) if ys == xs) && s2.crc() == s.crc() && fmt_snap_items(s2) == items
-                }
+                // (warnings may repeat on the second read, e.g. ExcessUuidItemData)
+                Rs::Ok(s2, _) => matches!(snap_write_ints(s2), Wr::Ok(ref ys) if ys == xs) && s2.crc() == s.crc() && fmt_snap_items(s2) == items,
                 _ => false,
             };
             if same(&snap_read_ints(xs)) && same(&snap_read_bytes(&pack_ints(xs))) {
@@ -668,7 +683,7 @@ fn op_rdelta(osz: ObjSize, r: Rs<Delta>, base: &[i32], o: &mut Oracle) -> String
                 }
                 Some(xs) => {
                     let canon = fmt_delta(&d);
-                    let same = |r: &Rs<Delta>| matches!(r, Rs::Ok(d2, ws) if ws.is_empty() && fmt_delta(d2) == canon);
+                    let same = |r: &Rs<Delta>| matches!(r, Rs::Ok(d2, _) if fmt_delta(d2) == canon);
                     if same(&read_delta_ints(osz, xs)) && same(&read_delta_bytes(osz, &pack_ints(xs))) {
                         "1"
                     } else {
@@ -1257,7 +1272,7 @@ fn gen_build_line(rng: &mut Rng, w: &mut dyn Write, big: bool) {
 
 impl Domain for D {
     fn runner(&self) -> Box<dyn Runner> {
-        Box::new(R { refdeltas: BTreeMap::new() })
+        Box::new(R { refdeltas: BTreeMap::new(), refout: vec![], refpool: vec![] })
     }
     fn gen(&self, tier: &str, seed: u64, w: &mut dyn Write) {
         if let Err(msg) = catch(|| gen_all(tier, seed, w)) {
@@ -1523,7 +1538,7 @@ fn gen_all(tier: &str, seed: u64, w: &mut dyn Write) {
             }
         }
         // registry id chains: 0x4000, +255, ... up to the u16 / 0x8000 boundaries
-        for &(count, step) in &[(10usize, 255u32), (64, 255), (65, 255), (130, 255), (191, 255), (192, 255), (200, 255), (64, 256), (300, 100)] {
+        for &(count, step) in &[(10usize, 255u32), (64, 255), (65, 255), (130, 255), (191, 255), (192, 255), (193, 255), (194, 255), (195, 255), (64, 256), (300, 100)] {
             let mut xs = vec![0, count as i32];
             for i in 0..count {
                 xs.push((i * 20) as i32);
